@@ -349,6 +349,9 @@ class Eval:
 
     def x_UnaryOp(self, e):
         v = self.expr(e.operand)
+        if isinstance(e.op, ast.Not) and denotes_source_value(v):
+            # `not x` asks x for its truth value (data model: __bool__ / __len__ of a user object may run)
+            self.emit("truthask", v)
         return ("unary", type(e.op).__name__, v)
 
     def x_BinOp(self, e):
@@ -497,6 +500,18 @@ def _pure_snapshot(t):
 
 # ----------------------------------------------------------------------------------------
 # normalisation of traces for comparison
+
+
+def denotes_source_value(term):
+    """may the value term be an object produced by a source expression (whose __bool__ is the user's)?"""
+    if isinstance(term, tuple) and term:
+        if term[0] == "val":
+            return True
+        if term[0] == "boolop":
+            return denotes_source_value(term[2]) or denotes_source_value(term[3])
+        if term[0] == "ifexp":
+            return denotes_source_value(term[2]) or denotes_source_value(term[3])
+    return False
 
 
 def observable(tr, keep_tmp=False):
